@@ -8,6 +8,21 @@ BASELINE = ("cd /repo && cargo nextest run --workspace --no-fail-fast --tool-con
 
 # id -> (engine, category, technique, level text, level note, design ref)
 CHECKS = {
+ "C07": ("mc-graph", "model_checking",
+         "exhaustive pair enumeration over a generated type universe against the reference validator's subtype relation + BFS over memo contents",
+         "A type universe (every value-type constructor to depth 2, field/case/param renames and reorderings, arity changes, async, option/result arms, alias chains, instance width/depth, component import/export subsets, core module limits/flags/globals/tags, values; 170 items quick / 215 thorough) is generated as the imports of one component; for all ordered pairs of resource-free items SubtypeChecker::is_subtype (fresh memo) must agree with wasmparser's ComponentEntityType::is_subtype_of in the same validator. Reflexivity across two independent decodes, transitivity over all accepted chains, and an explicit-state BFS over memo contents (depth 3/4 over a 12-pair family sharing sub-terms; every family pair re-probed in every memo state) follow.",
+         "Trusts wasmparser 0.247's subtype relation, corrected for two known quirks (it ignores table64 and the shared flag of globals; core import matching requires equality there, and wac's pinned tests agree). Resources only take part in reflexivity; resourceful argument passing is covered by C01's LibT.",
+         "DESIGN.md §5 C07"),
+ "C09": ("mc-graph", "model_checking",
+         "exhaustive enumeration of contributor multisets and all their permutations on the real TypeAggregator against a reference merge",
+         "All multisets of 2..4 (quick) / 2..5 (thorough) contributors from a 17-contributor universe (a:b/i at 8 versions with overlapping/disjoint/conflicting export sets, equal and conflicting functions, a kind clash on one track, nested instances, and WIT-derived interfaces that `use` a type of a compatible or incompatible version of another merged interface), each decoded into its own Types collection, and every permutation of each, are aggregated. Checked: verdict equals the reference merge and is the same for every permutation; the name->canonical-type map is the same for every permutation; the canonical name is the highest version of its track and every lower name redirects to it; the merged type satisfies every contributor (fresh SubtypeChecker); re-aggregating every contributor changes nothing; no panic.",
+         "Trusts the reference merge (A.3) and, for satisfaction, wac's SubtypeChecker (tied to the reference validator by C07). For mixes of hand-described and WIT-derived contributors the reference gives no verdict on success/failure (counted as unspecified) but all order-independence and law checks still apply.",
+         "DESIGN.md §5 C09, A.3"),
+ "C10": ("mc-graph", "exploration",
+         "exhaustive enumeration of sockets x ordered plug lists on the real plug(), graph and encoding compared with the statement",
+         "8 sockets x all ordered lists of 1..3 (quick) / 1..4 (thorough) plugs from a 10-plug universe (exact and semver-compatible versioned names, incompatible tracks, type-incompatible same-named items, plugs with nothing to offer, a plug with its own import, one repeated plug) are plugged on fresh graphs. On success every matchable socket import must be supplied by the designated export of the designated plug (graph queries and E2 reading of both encodings), every other import remains an import, socket exports are re-exported from the socket instance under their names, idle plugs are not instantiated, and both encodings validate; a contested import must fail; NoPlugHappened iff nothing was matchable.",
+         "Offers are computed from the library descriptors with the resource-free structural subtype rule. One plug offering two candidates for one import is outside the statement (no verdict).",
+         "DESIGN.md §5 C10"),
  "C01": ("mc-graph", "model_checking",
          "explicit-state BFS over the real CompositionGraph (E1) on three libraries; every reached state encoded under 4 option vectors and re-validated by the reference validator",
          "BFS (depth 4 quick / 5 thorough, up to 5 live nodes) over LibT (WIT-derived records/variants/enums/flags/alias chains/resources with constructor, method, static and borrow, `use` chains and renames at versioned interface names), LibHand (core module, nested component, nested instance, type, resource and value imports/exports) and LibFI (functions, instances, type definitions). Every new state is encoded with dependencies embedded and imported, with and without validation: Ok bytes must pass wasmparser's validator (and the E2 wiring/interface comparison), the two validate settings must agree, an error must be a documented one the model admits; ValidationFailure, panics and process aborts are never admissible.",
